@@ -33,7 +33,8 @@ VARIABLES vi, p, mu, done
 vars == <<vi, p, mu, done>>
 
 Init == /\ vi \in 1..Len(Valid)
-        /\ p \in {q \in 1..Len(Valid[vi].b) : q % Stride = (vi % Stride)}
+        /\ p \in (IF Len(Valid[vi].b) > 400 THEN 1..24      \* long messages: headers only
+                  ELSE {q \in 1..Len(Valid[vi].b) : q % Stride = (vi % Stride)})
         /\ mu \in Mutations
         /\ done = FALSE
 Next == ~done /\ done' = TRUE /\ UNCHANGED <<vi, p, mu>>
